@@ -229,24 +229,34 @@ def worker(args):
     seen = {}
     import logging
     logging.disable(logging.CRITICAL)
-    for ctx, out in symx.explore(lambda c: scenario(c, clients, args['preempt'], args['raising']), max_paths=args['max_paths'],
-                                 timeout_ms=1000, stats=res.stats, deadline=time.time() + args['budget_s']):
-        if isinstance(out, symx.Abort):
-            res.out_of_bound += 1
-            continue
-        problems, events, switches = out
-        res.nontrivial += 1
-        res.reached.add('schedule')
-        if problems:
-            key = problems[0].split(':')[0][:60]
-            if key not in seen:
-                seen[key] = (problems[0], events, switches, [a for a, _ in ctx.trail])
+    # iterative context bounding: all schedules with 0, then <= 1, ... preemptions (most races need few); on a busy machine
+    # the shallow races are then found before the time budget ends
+    t_end = time.time() + args['budget_s']
+    exhaustive = True
+    bound_of = {}
+    for bound in range(0, args['preempt'] + 1):
+        share = args['max_paths'] if bound == args['preempt'] else max(300, args['max_paths'] // 4)
+        for ctx, out in symx.explore(lambda c, b=bound: scenario(c, clients, b, args['raising']), max_paths=share,
+                                     timeout_ms=1000, stats=res.stats, deadline=t_end):
+            if isinstance(out, symx.Abort):
+                res.out_of_bound += 1
+                continue
+            problems, events, switches = out
+            res.nontrivial += 1
+            res.reached.add('schedule')
+            if problems:
+                key = problems[0].split(':')[0][:60]
+                if key not in seen:
+                    seen[key] = (problems[0], events, switches, [a for a, _ in ctx.trail])
+                    bound_of[key] = bound
+        exhaustive = exhaustive and symx.explore.last_exhaustive
+    symx.explore.last_exhaustive = exhaustive
     for key, (msg, events, switches, trail) in seen.items():
         # replay the same schedule vector
         rctx = symx.Ctx(prefix=trail, stats=symx.Stats())
         symx.Ctx.cur = rctx
         try:
-            p2, e2, _ = scenario(rctx, clients, args['preempt'], args['raising'])
+            p2, e2, _ = scenario(rctx, clients, bound_of.get(key, args['preempt']), args['raising'])
         except symx.Abort:
             p2 = []
         finally:
